@@ -583,6 +583,17 @@ func init() {
 			e.clockSkew += d.val
 			return nil
 		},
+		// the default logger factory (reads the environment): an empty factory object; every
+		// harness passes its own silent logger, which replaces it
+		"github.com/pion/logging.NewDefaultLoggerFactory": func(e *Engine, fn *ssa.Function, a []Value) Value {
+			return Ptr{c: e.newCell(e.namedType("github.com/pion/logging", "DefaultLoggerFactory"))}
+		},
+		// vQueueGo(f): a goroutine of the code under check that runs when the harness goroutine
+		// blocks (interp.go runQueued); natively a real goroutine
+		hname("vQueueGo"): func(e *Engine, fn *ssa.Function, a []Value) Value {
+			e.goQueue = append(e.goQueue, a[0].(FuncV))
+			return nil
+		},
 		hname("vMustNotBlock"): func(e *Engine, fn *ssa.Function, a []Value) Value {
 			e.noBlockMsg = a[0].(StringV).s
 			return nil
